@@ -33,6 +33,15 @@ def gen_len(r, big=False):
 def gen_utf8(r, n):
     """a valid UTF-8 string of exactly n octets"""
     out = b""
+    if n and r.chance(1, 8):
+        # multi-octet characters only, shifted by 0..3 ASCII octets: a character straddles every boundary
+        ch = r.choice(["é", "€", "\U00010000"]).encode()
+        out = b"a" * min(n, r.below(4))
+        while len(out) + len(ch) <= n:
+            out += ch
+        tail = n - len(out)
+        out += (b"\0" if r.chance(1, 3) else b"z") * tail
+        return out
     while len(out) < n:
         rem = n - len(out)
         if r.chance(1, 4):
@@ -277,6 +286,30 @@ def length_rewrites(frame, nodes):
             f[n["off"] + 5:n["off"] + 8] = be(v, 3)
             out.append(("avplen", bytes(f)))
     return out
+
+
+def strip_final_padding(frame, nodes):
+    """the frame without the padding of its last top-level AVP, message length adjusted (a complete frame that is NOT well-formed)"""
+    tops = [n for n in nodes if n["depth"] == 0]
+    if not tops or tops[-1]["pad"] == 0:
+        return None
+    return fix_msglen(frame[: len(frame) - tops[-1]["pad"]])
+
+
+def vendorize(frame, nodes, node, vendor):
+    """sets the V bit of a vendor-less AVP and inserts a Vendor-Id, adjusting every enclosing length:
+    well-formed as octets, but (code, vendor) is a different dictionary key"""
+    if node["hdr"] != 8:
+        return None
+    off = node["off"]
+    f = bytearray(frame)
+    f[off + 4] |= 0x80
+    f[off + 5:off + 8] = be(node["len"] + 4, 3)
+    f[off + 8:off + 8] = be(vendor, 4)
+    for n in nodes:
+        if n["depth"] < node["depth"] and n["off"] < off < n["off"] + n["len"]:
+            f[n["off"] + 5:n["off"] + 8] = be(n["len"] + 4, 3)
+    return fix_msglen(bytes(f))
 
 
 def fix_msglen(f):
